@@ -60,7 +60,11 @@ fn parts(id: &'static str, tier: Tier, seed: u64) -> Vec<Part> {
         "C12" | "C20" => vec![seq_part(id, tier, seed), e2_part(id, tier)],
         "C06" => vec![seq_part(id, tier, seed), e2_part(id, tier), e3_part(id)],
         "C03" | "C09" => vec![e2_part(id, tier)],
-        "C08" => vec![e2_part(id, tier), e3_part(id)],
+        "C08" => vec![
+            e2_part(id, tier),
+            Part { rule: props_misc::C08_PLANT_RULE.to_string(), run: Box::new(|ctx, acc| props_misc::run_c08_planted(ctx, acc)) },
+            e3_part(id),
+        ],
         "C04" | "C05" | "C15" => vec![e3_part(id)],
         "C17" => vec![Part { rule: props_misc::C17_RULE.to_string(), run: Box::new(|ctx, acc| props_misc::run_c17(ctx, acc)) }],
         "C19" => vec![Part { rule: props_misc::C19_RULE.to_string(), run: Box::new(|ctx, acc| props_misc::run_c19(ctx, acc)) }],
@@ -140,6 +144,7 @@ fn replay_case(id: &'static str, engine: &str, case: serde_json::Value) -> R<Cas
         "E2F" => props_e2::replay_c14(case),
         "E3" => props_e3::replay_e3(id, case),
         "C11" => props_c11::replay_c11(case),
+        "C08P" => props_misc::replay_c08_planted(case),
         "C17" => props_misc::replay_c17(case),
         "C19" => props_misc::replay_c19(case),
         "C10" => props_misc::replay_c10(case),
